@@ -104,6 +104,14 @@ class LinePostProcessor(PostProcessor):
         my_generator.generate_all(False, True, True, [c_style])
     """
 
+    def for_new_file(self) -> "LinePostProcessor":
+        """
+        Called by generators before the first line of each generated file. Returns the post processor to use for
+        that file. Processors that keep per-file state should return an object with fresh state. The default is to
+        reuse this object.
+        """
+        return self
+
     @abc.abstractmethod
     def __call__(self, line_and_lineend: typing.Tuple[str, str]) -> typing.Tuple[str, str]:
         """
@@ -216,6 +224,10 @@ class LimitEmptyLines(LinePostProcessor):
     def __init__(self, max_empty_lines: int):
         self._max_empty_lines = max_empty_lines
         self._empty_line_count = 0
+
+    def for_new_file(self) -> "LimitEmptyLines":
+        # the count of consecutive empty lines must not carry over from the end of the previous file.
+        return LimitEmptyLines(self._max_empty_lines)
 
     def __call__(self, line_and_lineend: typing.Tuple[str, str]) -> typing.Tuple[str, str]:
         if len(line_and_lineend[0]) == 0:
